@@ -100,7 +100,7 @@ impl Prop for C06 {
             let notes = r.apply_edits(step);
             let sent = r.send(step, notes);
             if !r.barrier() {
-                out.fail("reload-lost", format!("step {sn}: the notified change of a loaded asset's file (the barrier's sentinel) was never applied although hot_reload kept returning"));
+                out.fail("reload-lost", format!("step {sn}: the notified change of a loaded asset's file (the barrier's sentinel) was never applied although hot_reload kept returning {}", r.lost_detail));
                 break;
             }
             let deps_after = union(&r.world.shadow_deps(), &r.world.shadow_failed_extra());
